@@ -3,11 +3,14 @@ package props
 import (
 	"context"
 	"fmt"
+	"io"
+	"log/slog"
 	"sort"
 	"sync"
 	"sync/atomic"
 	"time"
 
+	"github.com/form3tech-oss/f1/v2/pkg/f1"
 	f1testing "github.com/form3tech-oss/f1/v2/pkg/f1/testing"
 	"github.com/form3tech-oss/f1/v2/verifharness/core"
 	"github.com/form3tech-oss/f1/v2/verifharness/engine"
@@ -125,6 +128,13 @@ func init() {
 				p.Spec = engine.Spec{Mode: "custom", CustomIntervalUS: 3600_000_000, CustomRates: []int{3}, Concurrency: 4, MaxDurationMS: d, IgnoreDropped: true}
 				p.Desc = fmt.Sprintf("ended-before-start max-duration=%dms", d)
 				cse := core.MkCase("C09", "deadfirst", i, seed, p)
+				cse.TimeoutMS = 60000
+				cs = append(cs, cse)
+			}
+			// two command lines on one f1 instance: the second one's trigger flags are its own
+			{
+				cse := core.MkCase("C09", "clitwice", 0, seed, c09Params{Desc: "run constant -r 40/100ms, then run constant with the default rate, on one instance"})
+				cse.Solo = true
 				cse.TimeoutMS = 60000
 				cs = append(cs, cse)
 			}
@@ -265,7 +275,7 @@ func init() {
 			}
 			return cs
 		},
-		Kinds:  map[string]core.RunFunc{"cadence": c09Cadence, "first": c09First, "promptfirst": c09PromptFirst, "aftermath": c09Aftermath, "zero": c09Zero, "fastticks": c09FastTicks, "lasttick": c09LastTick, "filestage": c09FileStage, "builder": c09Builder, "deadfirst": c09DeadFirst},
+		Kinds:  map[string]core.RunFunc{"cadence": c09Cadence, "first": c09First, "promptfirst": c09PromptFirst, "aftermath": c09Aftermath, "zero": c09Zero, "fastticks": c09FastTicks, "lasttick": c09LastTick, "filestage": c09FileStage, "builder": c09Builder, "clitwice": c09CLITwice, "deadfirst": c09DeadFirst},
 		Floors: map[string]int64{"evaluations_checked": 300, "sum_checked_runs": 10, "first_runs": 4, "zero_runs": 4},
 	})
 }
@@ -865,4 +875,38 @@ func c09Builder(c *core.Case, o *core.Outcome) {
 	o.AddObs("evaluations_checked", int64(len(starts)/max(v, 1)))
 	o.Sig("builder:%s:variant=%d", name, variant)
 	o.Sample = map[string]any{"case": p.Desc, "args": args, "iterations": len(starts)}
+}
+
+// c09CLITwice: one f1 instance executes `run constant --rate 40/100ms ...` and then `run constant ...` without a rate
+// (the flag's default is 1/s) for 1.3 s. The second run ticks at once and one second later: it starts two iterations (three
+// are allowed for); whatever the first command line said is not in force any more.
+func c09CLITwice(c *core.Case, o *core.Outcome) {
+	var p c09Params
+	c.Params(&p)
+	var n atomic.Int64
+	inst := f1.New().WithLogger(slog.New(slog.NewTextHandler(io.Discard, nil))).Add("s", func(*f1testing.T) f1testing.RunFn {
+		return func(*f1testing.T) { n.Add(1) }
+	})
+	if err := inst.ExecuteWithArgs([]string{"run", "constant", "--rate", "40/100ms", "--distribution", "none", "-c", "8", "-d", "350ms", "s"}); err != nil {
+		o.Inconc("the first command line returned %v", err)
+		return
+	}
+	first := n.Swap(0)
+	if err := inst.ExecuteWithArgs([]string{"run", "constant", "--distribution", "none", "-c", "8", "-d", "1300ms", "s"}); err != nil {
+		o.Inconc("the second command line returned %v", err)
+		return
+	}
+	second := n.Load()
+	o.Events = first + second
+	if second > 3 {
+		o.Violate("clitwice:"+p.Desc, "the second command line names no rate (default 1/s) and ran for 1.3 s: two ticks; it started %d iterations (the first command line, --rate 40/100ms for 350 ms, started %d) (%s)", second, first, p.Desc)
+		return
+	}
+	if second == 0 {
+		o.Inconc("the second run started nothing (%s)", p.Desc)
+		return
+	}
+	o.AddObs("evaluations_checked", 2)
+	o.Sig("clitwice")
+	o.Sample = map[string]any{"case": p.Desc, "first_run_iterations": first, "second_run_iterations": second}
 }
